@@ -78,6 +78,10 @@ func vhTemplate(t int) (lit []uint8, dist []uint8) {
 		}
 		dist[28], dist[29] = 4, 4 // 28*2^-5 + 2*2^-4 = 1
 		// make a run of equal lengths cross the lit/dist boundary: lit[283..285] ... dist[0..]
+	case 14: // a run of equal lengths crosses the literal/distance boundary (RLE symbol 16 spanning both alphabets)
+		lit[97], lit[256], lit[257], lit[258] = 1, 2, 3, 3
+		lit = lit[:259]
+		dist = []uint8{3, 3, 3, 3, 3, 3, 3, 3}
 	case 9: // under-subscribed lit/len code
 		lit[97], lit[98], lit[256] = 2, 2, 3
 		lit = lit[:257]
@@ -146,7 +150,7 @@ func vhBuild(ctx int, s []byte) vhCtx {
 		return vhMerge(w, s, c)
 	case ctx >= 10 && ctx < 30:
 		lit, dist := vhTemplate(ctx - 10)
-		vbDynHeader(w, false, lit, dist, ctx-10 == 8)
+		vbDynHeader(w, false, lit, dist, ctx-10 == 8 || ctx-10 == 14)
 		c.symStart = w.bitLen()
 		c = vhMerge(w, s, c)
 		w2 := &vbw{}
@@ -155,7 +159,7 @@ func vhBuild(ctx int, s []byte) vhCtx {
 		return c
 	case ctx >= 30 && ctx < 50:
 		lit, dist := vhTemplate(ctx - 30)
-		vbDynHeader(w, true, lit, dist, ctx-30 == 8)
+		vbDynHeader(w, true, lit, dist, ctx-30 == 8 || ctx-30 == 14)
 		c.symStart = w.bitLen()
 		return vhMerge(w, s, c)
 	case ctx >= 50 && ctx < 70:
